@@ -203,11 +203,24 @@ type callResult struct {
 // buildCall draws arguments for method name. Variadic tails are left empty
 // half of the time.
 func (e *argEnv) buildCall(name string) (reflect.Value, []reflect.Value, string, bool) {
-	meth := reflect.ValueOf(e.m).MethodByName(name)
-	ft := meth.Type()
+	var meth reflect.Value
+	if e.m != nil {
+		meth = reflect.ValueOf(e.m).MethodByName(name)
+	}
+	args, desc, ok := e.buildArgs(reflect.TypeOf(&am.Machine{}), name)
+	return meth, args, desc, ok
+}
+
+// buildArgs draws arguments for method name of receiver type rt.
+func (e *argEnv) buildArgs(rt reflect.Type, name string) ([]reflect.Value, string, bool) {
+	mm, found := rt.MethodByName(name)
+	if !found {
+		return nil, "no such method", false
+	}
+	ft := mm.Type
 	var args []reflect.Value
 	var descs []string
-	for j := 0; j < ft.NumIn(); j++ {
+	for j := 1; j < ft.NumIn(); j++ {
 		it := ft.In(j)
 		if ft.IsVariadic() && j == ft.NumIn()-1 {
 			if e.tp.Draw(2) == 0 {
@@ -225,12 +238,12 @@ func (e *argEnv) buildCall(name string) (reflect.Value, []reflect.Value, string,
 		}
 		v, d, ok := e.argFor(name, j, it)
 		if !ok {
-			return meth, nil, "no generator for " + it.String(), false
+			return nil, "no generator for " + it.String(), false
 		}
 		args = append(args, v)
 		descs = append(descs, d)
 	}
-	return meth, args, strings.Join(descs, ", "), true
+	return args, strings.Join(descs, ", "), true
 }
 
 // invoke calls meth in a goroutine of its own and waits at most limit of fake
